@@ -48,7 +48,7 @@ RULE = ("left documents x merge paths x right documents x policies.  Small part:
         "missing keys, right documents that are mappings holding arrays / arrays-of-hashes, arrays, arrays-of-hashes, scalars; "
         "judged on the real code alone: where the real optional query (run on a twin) creates the tail, the merged document "
         "holds exactly the right-hand document there, and apart from the created nodes (and the targets that existed, which are "
-        "not judged in this part) it equals the left document as data; the merge must not be refused.  strip_path_prefix is compared with the model on a grid of key paths.  Random part: 160 000 cases "
+        "not judged in this part) it equals the left document as data; the merge must not be refused.  Sequences on ONE Merger / MergerConfig (12 000 quick): one or two earlier steps - a merge at the root (often under a right / unique policy, which replaces the root object), an aimed merge, or an assignment to Merger.data - with mergeat and policies rewritten per step, then an ordinary aimed merge judged like every other case on the document that step starts from (computed with a fresh Merger per step; sequences that leave one container object at two places are counted out of model).  Empty left document with a path through a search that nothing can match (600 API cases, 80 yaml-merge runs with an empty left file): a merge / YAML Path error, non-zero exit and no output file are demanded.  Created tails include keys with dots (dot notation escapes them); a Hash above a created node may gain only the one key the path names.  strip_path_prefix is compared with the model on a grid of key paths.  Random part: 160 000 cases "
         "(quick) / 300 000 (thorough; trimmed from 2 000 000 - a random case costs ~12 small-layer cases and the thorough run needed "
         "> 14 000 CPU-seconds, > 45 min on the shared machine; the complete small layers are untouched).  distinct_nontrivial = "
         "distinct (l, path, r, policy) cases whose result differs from the left document.")
@@ -105,12 +105,12 @@ def seg_path(segs, slash=False):
     if slash:
         out = ""
         for t, v in segs:
-            out += ("/%s" % v) if t == "k" else ("[%d]" % v)
+            out += ("/%s" % str(v).replace("/", "\\/")) if t == "k" else ("[%d]" % v)
         return out if out.startswith("/") else "/" + out
     out = ""
     for t, v in segs:
         if t == "k":
-            out += ("." if out else "") + str(v)
+            out += ("." if out else "") + str(v).replace(".", "\\.")
         else:
             out += "[%d]" % v
     return out
@@ -230,14 +230,57 @@ def shared_containers(data):
     return out[:3]
 
 
+def aliased_containers(data):
+    """Does one container object (empty ones included) stand at two places of the document?"""
+    seen = set()
+
+    def walk(n):
+        if isinstance(n, (dict, list, set)) and not isinstance(n, (str, bytes)):
+            if id(n) in seen:
+                return True
+            seen.add(id(n))
+            kids = n.values() if isinstance(n, dict) else (n if isinstance(n, list) else ())
+            return any(walk(v) for v in kids)
+        return False
+    return walk(data)
+
+
 def impl_run(case, via="kw"):
     """Merger(l, mergeat=path).merge_with(r): {"ok": doc} | {"err": class, "site"} | {"oom": 1}."""
     from yamlpath.merger import Merger
 
     def go():
+        if case.get("pre"):
+            return go_seq()
         mc = mg.make_config(real_cfg(case), via, extra_args={"mergeat": case["path"]})
         m = Merger(mc.log, codec.json_to_ruamel(case["l"]), mc)
         m.merge_with(codec.json_to_ruamel(case["r"]))
+        return codec.node_to_json(m.data, anchors=False), shared_containers(m.data)
+
+    def go_seq():
+        # ONE Merger and ONE MergerConfig for the whole sequence: the earlier steps (case["pre"]: merges with their own
+        # --mergeat / policies written into the same args namespace, or an assignment to Merger.data), then the judged step
+        names = {"hash": "hashes", "array": "arrays", "aoh": "aoh", "set": "sets"}
+        steps = list(case["pre"]) + [case]
+        first = steps[0]
+        mc = mg.make_config({k: v for k, v in (first.get("cfg") or {}).items() if k in names}, "kw",
+                            extra_args={"mergeat": first.get("path", "/")})
+        m = Merger(mc.log, codec.json_to_ruamel(case["l0"]), mc)
+        for st in steps:
+            if "setdata" in st:
+                m.data = codec.json_to_ruamel(st["setdata"])
+                continue
+            for k, attr in names.items():
+                if (st.get("cfg") or {}).get(k):
+                    setattr(mc.args, attr, st["cfg"][k])
+                elif hasattr(mc.args, attr):
+                    delattr(mc.args, attr)
+            mc.args.mergeat = st["path"]
+            if st is case and aliased_containers(m.data):
+                # an earlier step left ONE container object at two places of the document (padding, records appended by
+                # reference): a document the value model cannot describe - counted, not judged
+                raise codec.OutOfModel("aliased containers after the earlier steps")
+            m.merge_with(codec.json_to_ruamel(st["r"]))
         return codec.node_to_json(m.data, anchors=False), shared_containers(m.data)
     try:
         res = ed.guarded(go, 5.0)
@@ -280,6 +323,10 @@ def judge(case, plan, im, mo_full):
     mo = mo_full["model"]
     l, r = case["l"], case["r"]
     desc = "%s <- %s at '%s' under %s" % (show(l), show(r), case["path"], json.dumps(real_cfg(case), sort_keys=True))
+    if case.get("pre"):
+        desc += " [step %d on ONE Merger that started from %s; earlier steps: %s]" % (len(case["pre"]) + 1, show(case["l0"]), "; ".join(
+            ("Merger.data = %s" % show(st["setdata"])) if "setdata" in st else
+            ("merge_with(%s) at '%s' under %s" % (show(st["r"]), st["path"], json.dumps(st["cfg"], sort_keys=True))) for st in case["pre"]))
     if "oom" in im or mo.get("err") == "outOfModel":
         return None
     out = []
@@ -342,6 +389,17 @@ def judge(case, plan, im, mo_full):
                 continue
             above = r["k"] != "null" and any(is_prefix(b, t) for t in taddrs)
             got = get_at(res, b)
+            if above and fresh and len(taddrs) == 1 and got is not None and got["k"] == n["k"] == "map":
+                # creation: a Hash above the created node gains at most the ONE key the path names there, nothing else
+                nxt = taddrs[0][len(b)]
+                okeys = [(type(k).__name__, k) for k, _ in n["e"]]
+                gkeys = [(type(k).__name__, k) for k, _ in got["e"]]
+                extra = [k for k in gkeys if k not in okeys and not (nxt[0] == "k" and k == (type(nxt[1]).__name__, nxt[1]))]
+                if extra:
+                    out.append(("violation", "frame:stray-node-created", "merge %s gave %s: the Hash at %s above the created node %s "
+                                "gained the key(s) %s, which the merge path does not name" % (
+                                    desc, show(res), seg_path(b), seg_path(taddrs[0]), [k for _t, k in extra])))
+                    break
             if above:
                 if not fresh and shape(got) != shape(n):
                     out.append(("violation", "frame:spine-changed", "merge %s gave %s: the container at %s above the target "
@@ -393,6 +451,9 @@ def run_cases(cases):
     prepared, reqs = [], []
     direct_findings = []
     for case in cases:
+        if case.get("cat") == "emptyleft":
+            judge_emptyleft(case, stats, cnt, direct_findings)
+            continue
         if case.get("cat") == "mcreate":
             try:
                 judge_mcreate(case, stats, cnt, direct_findings)
@@ -531,8 +592,8 @@ def straight(a):
     return all(t == "i" or (isinstance(v, str) and v.isalnum() and not v.isdigit()) for t, v in a)
 
 
-def rand_case(rng):
-    l = rand_left(rng)
+def rand_case(rng, l=None):
+    l = rand_left(rng) if l is None else l
     nodes = [(a, n) for a, n in all_nodes(l) if straight(a)]
     a, n = rng.choice(nodes)
     if rng.random() < 0.6:
@@ -571,7 +632,7 @@ def rand_case(rng):
         cur = bn["k"]
         for d in range(rng.choice([1, 1, 2, 3])):
             if cur == "map":
-                tail.append(["k", rng.choice(["z", "y", "zz", "new"])])
+                tail.append(["k", rng.choice(["z", "y", "zz", "new", "db.example.com", "v1.2", "z.y"])])
             else:
                 m = len(bn["i"]) if (d == 0 and bn["k"] == "seq") else 0
                 tail.append(["i", m + rng.choice([0, 0, 0, 1, 2])])
@@ -649,6 +710,85 @@ def rand_case(rng):
         case.pop("lkeys", None)
         case["cfg"] = cfg
     return case
+
+
+# --------------------------------------------------------------------------- sequences on one Merger
+
+def seq_case(rng):
+    """A short sequence of operations on ONE Merger (one MergerConfig, whose options are re-read per call): one or two
+    earlier steps - a merge at the root (often under a 'right' policy or with a root of another kind, which replaces the
+    root object), a merge at a path, or an assignment to Merger.data - and then an ordinary aimed merge, which is the one
+    judged.  The document the judged step starts from (case["l"]) is computed step by step with a FRESH Merger per step."""
+    l0 = rand_left(rng)
+    cur, pre = l0, []
+    for _ in range(rng.choice([1, 1, 2])):
+        x = rng.random()
+        if x < 0.25:
+            d = mg.mutate(rng, cur, 2) if rng.random() < 0.6 else rand_left(rng)
+            pre.append({"setdata": d})
+            cur = d
+            continue
+        if x < 0.75:
+            r = mg.mutate(rng, cur, 2)
+            cfg = rng.choice([{"hash": "right"}, {"hash": "right"}, {"array": "right"}, {"array": "unique"}, {"aoh": "right"},
+                              {"hash": "left"}, {}, {"hash": "deep", "array": "all"}])
+            st = {"r": r, "path": "/", "segs": [], "cfg": cfg}
+        else:
+            c = rand_case(rng, cur)
+            st = {"r": c["r"], "path": c["path"], "segs": c["segs"], "cfg": mg.rand_policy(rng, c["r"], with_rules=False)}
+            st["cfg"] = {k: v for k, v in st["cfg"].items() if k in ("hash", "array", "aoh", "set")}
+        im = impl_run({"l": cur, "r": st["r"], "path": st["path"], "cfg": st["cfg"]})     # a Merger of its own
+        if "ok" not in im or im["ok"]["k"] == "null":
+            raise ValueError("step refused")
+        pre.append(st)
+        cur = im["ok"]
+    if cur["k"] not in ("map", "seq"):
+        raise ValueError("scalar document")
+    case = rand_case(rng, cur)
+    case["cfg"] = {k: v for k, v in case["cfg"].items() if k in ("hash", "array", "aoh", "set")}
+    for k in ("lrules", "lkeys", "at"):
+        case.pop(k, None)
+    case["via"] = "kw"
+    case["l0"], case["pre"] = l0, pre
+    case["cat"] = "seq:" + "+".join("setdata" if "setdata" in st else ("root" if st["path"] == "/" else "path") for st in pre)
+    return case
+
+
+# --------------------------------------------------------------------------- empty left document, path not creatable
+
+NOWHERE = ["[zz=1]", "[zz=web]", "[.=zz]", "[.=~/^zz/]", "[has_child(zz)]", "[zz^w]", "[.^zz]"]
+
+
+def emptyleft_case(rng):
+    """An EMPTY left document and a merge path that ends in / passes through a search which nothing can match (the
+    attribute zz / the value zz occur in no generated document) and which cannot be created."""
+    pre = rng.choice(["", "", "items", "a.b", "/items", "/a/b", "x"])
+    srch = rng.choice(NOWHERE)
+    tail = rng.choice(["", "", "", ".c", ".c.d"])
+    if pre.startswith("/"):
+        tail = tail.replace(".", "/")
+    path = pre + srch + tail
+    r = rng.choice([mg.rand_doc(rng, rng.choice([1, 2]), rng.choice(["map", "map", "seq", "aoh", "set"])),
+                    mg.M(("port", mg.S(8080))), mg.L(mg.S(1))])
+    cfg = {k: v for k, v in mg.rand_policy(rng, r, with_rules=False).items() if k in ("hash", "array", "aoh", "set")}
+    return {"l": mg.S(None), "r": r, "path": path, "segs": None, "cfg": cfg, "cat": "emptyleft"}
+
+
+def judge_emptyleft(case, stats, cnt, findings):
+    im = impl_run(case)
+    stats["n"] += 1
+    cnt("emptyleft:" + ("ok" if "ok" in im else ("oom" if "oom" in im else im["err"].split(":")[0])))
+    if "oom" in im:
+        stats["oom"] += 1
+        return
+    desc = "merge <empty document> <- %s at '%s' under %s" % (show(case["r"]), case["path"], json.dumps(case["cfg"], sort_keys=True))
+    if "ok" in im:
+        findings.append(("violation", "empty-left:accepted-unmatched-search",
+                         "%s returned normally with %s; the path matches nothing and cannot be created: a merge error is demanded" % (
+                             desc, show(im["ok"])), dict(case, impl=im)))
+    elif im["err"] not in ("merge", "ypath"):
+        findings.append(("violation", "%s@%s" % (im["err"], im.get("site", "?")), "%s raised %s at %s" % (desc, im["err"], im.get("site")),
+                         dict(case, impl=im)))
 
 
 # --------------------------------------------------------------------------- integer-keyed mappings
@@ -1086,6 +1226,64 @@ def cli_checks(chk, cases):
     chk.count("cli:failed-merges", n_fail)
     chk.count("cli:successful-merges", n_ok)
 
+def emptyleft_cli_checks(chk, n, fixed=None):
+    """yaml-merge with an EMPTY left file (a lone `---`, `--- # comment`, `null`) and a merge path that nothing can match
+    and that cannot be created: the tool must exit non-zero and write no output file."""
+    import yamlpath.commands.yaml_merge as ym
+    rng = random.Random(chk.seed * 31 + 5)
+    tmp = tempfile.mkdtemp(prefix="ypv-c11e-")
+    old_argv, old_out, old_err = sys.argv, sys.stdout, sys.stderr
+    try:
+        for i in range(n):
+            case = emptyleft_case(rng)
+            ltext = rng.choice(["---\n", "--- # nothing yet\n", "null\n", "---\n...\n", "~\n"])
+            if fixed is not None:
+                case, ltext = fixed
+            lf, rf, of = [os.path.join(tmp, "%s%d.yaml" % (nm, i)) for nm in ("l", "r", "o")]
+            try:
+                dump_yaml(case["r"], rf)
+            except Exception:  # noqa
+                continue
+            with open(lf, "w") as fh:
+                fh.write(ltext)
+            argv = ["yaml-merge", "-S", "-m", case["path"], "-o", of]
+            names = {"hash": "--hashes", "array": "--arrays", "aoh": "--aoh", "set": "--sets"}
+            for k, opt in names.items():
+                if case["cfg"].get(k):
+                    argv += [opt, case["cfg"][k]]
+            argv += [lf, rf]
+
+            def go():
+                sys.argv = argv
+                sys.stdout, sys.stderr = io.StringIO(), io.StringIO()
+                try:
+                    ym.main()
+                except SystemExit as e:
+                    return e.code or 0
+                finally:
+                    sys.stdout, sys.stderr = old_out, old_err
+                return 0
+            res = ed.guarded(go, 10.0)
+            chk.evaluations += 1
+            exists = os.path.exists(of)
+            rec = dict(case, argv=argv, ltext=ltext)
+            if res[0] != "ok":
+                chk.violation("cli:%s@%s" % (res[0], res[1]), "yaml-merge %s (left file %r) raised %s" % (argv[1:], ltext, res[0]), rec)
+            elif res[1] == 0 or exists:
+                written = open(of).read() if exists else None
+                chk.violation("cli:empty-left:accepted-unmatched-search" if res[1] == 0 else "cli:output-on-failure",
+                              "yaml-merge %s with the empty left file %r and the right file %s exits %s%s; the path matches nothing "
+                              "and cannot be created: a merge error and no output file are demanded" % (
+                                  argv[1:], ltext, show(case["r"]), res[1], (" and writes %r" % written) if exists else ""), rec)
+            chk.count("cli:empty-left-runs")
+            for f in (lf, rf, of):
+                if os.path.exists(f):
+                    os.remove(f)
+    finally:
+        sys.argv, sys.stdout, sys.stderr = old_argv, old_out, old_err
+        shutil.rmtree(tmp, ignore_errors=True)
+
+
 # --------------------------------------------------------------------------- yaml-merge, multi-document files
 
 MULTIDOC_MODES = ["condense_all", "merge_across", "matrix_merge"]
@@ -1272,7 +1470,7 @@ def widen(chk: core.Check):
 def _gen_job(job):
     _tag, seed, n = job
     rng = random.Random(seed)
-    gen = {"MCREATE": mcreate_case, "INTKEY": intkey_case}[_tag]
+    gen = {"MCREATE": mcreate_case, "INTKEY": intkey_case, "SEQ": seq_case, "EMPTYLEFT": emptyleft_case}[_tag]
     cases = []
     for _ in range(n):
         try:
@@ -1283,7 +1481,7 @@ def _gen_job(job):
 
 
 def _job(job):
-    if job[0] in ("MCREATE", "INTKEY"):
+    if job[0] in ("MCREATE", "INTKEY", "SEQ", "EMPTYLEFT"):
         return _gen_job(job)
     if job[0] == "EXH":
         return _exh_job(job)
@@ -1305,15 +1503,17 @@ def run(chk: core.Check):
         if "l" not in c:
             print("replay: nothing to run for", json.dumps(c)[:300])
             return chk
-        case = {k: c[k] for k in ("l", "r", "path", "segs", "cfg", "at", "lrules", "lkeys", "via", "cat", "targets", "prefix", "tail")
+        case = {k: c[k] for k in ("l", "r", "path", "segs", "cfg", "at", "lrules", "lkeys", "via", "cat", "targets", "prefix", "tail", "l0", "pre")
                 if k in c}
         case.setdefault("segs", None)
         results = [run_cases([case])]
         im = impl_run(case, case.get("via", "kw"))
         print("replay:", json.dumps({"l": show(case["l"]), "r": show(case["r"]), "path": case["path"], "cfg": real_cfg(case),
                                      "impl": im if "ok" not in im else show(im["ok"])}))
-        if c.get("argv"):
+        if c.get("argv") and c.get("ltext") is None:
             cli_checks(chk, [case])
+        elif c.get("ltext") is not None:
+            emptyleft_cli_checks(chk, 1, fixed=(case, c["ltext"]))
     else:
         table_checks(chk)
         lb = int(os.environ.get("YPV_EXH_BOUND") or 3)   # developer override only
@@ -1345,6 +1545,10 @@ def run(chk: core.Check):
         nmc = int(os.environ.get("YPV_NMC") or (12000 if tier == "quick" else 200000))
         jobs += [("MCREATE", chk.seed * 100019 + 7 + i, 1000) for i in range(nmc // 1000)]
         jobs += [("INTKEY", chk.seed * 100043 + 11 + i, 1000) for i in range(nmc // 1000)]
+        nseq = int(os.environ.get("YPV_NSEQ") or (12000 if tier == "quick" else 150000))
+        jobs += [("SEQ", chk.seed * 100057 + 13 + i, 1000) for i in range(nseq // 1000)]
+        jobs += [("EMPTYLEFT", chk.seed * 100069 + 19, 600 if tier == "quick" else 6000)]
+        chk.extra_cov["sequence_cases"] = nseq
         chk.extra_cov["multi_creation_cases"] = nmc
         chk.extra_cov["integer_key_cases"] = nmc
         chk.exhaustive = True
@@ -1363,6 +1567,7 @@ def run(chk: core.Check):
                 continue
             ccases.append(c)
         cli_checks(chk, ccases)
+        emptyleft_cli_checks(chk, 80 if tier == "quick" else 800)
         nmd = 600 if tier == "quick" else 6000
         multidoc_cli_checks(chk, nmd)
         chk.extra_cov["multi_document_cli_runs"] = nmd
